@@ -151,7 +151,7 @@ theorem C17_exact (fs : FS) (fuel : Nat) (s : Repo) (ns v : Str) (lazy b : Bool)
   · intro f hf
     refine ⟨findVersion_first hf, ?_, ?_⟩
     · intro hne
-      simp only [requireInternal, hst, findFile, hf]
+      simp only [requireInternal, hst, findFile, hf, Option.map_some]
       by_cases h1 : f.hdr.ns = ns
       · have h2 : f.hdr.ver ≠ v := hne.resolve_left (fun h => h h1)
         simp [h1, h2]
@@ -163,7 +163,7 @@ theorem C17_exact (fs : FS) (fuel : Nat) (s : Repo) (ns v : Str) (lazy b : Bool)
     cases hf : findVersion fs ns v path with
     | none => simp [hf] at htl
     | some f =>
-      simp only [hf] at htl
+      simp only [hf, Option.map_some] at htl
       split_ifs at htl with h1 h2
       have e := register_ok_eq _ _ _ _ _ htl
       subst e
@@ -174,8 +174,9 @@ theorem C17_exact (fs : FS) (fuel : Nat) (s : Repo) (ns v : Str) (lazy b : Bool)
 /-- Requiring `ns` without a version (not registered yet): no file counts as a version of `ns` ⇔
     nothing is elected, and then the call fails with NotFound and the state is unchanged; otherwise
     the elected file is maximal in (major, minor) among ALL files that count, and among the maximal
-    ones it lies in the earliest directory (`Elected`); a header naming another namespace ⇒
-    NamespaceMismatch with both tables unchanged; else that file is registered under its path. -/
+    ones it lies in the earliest directory (`Elected`); a header naming another namespace, or another
+    version than the file name, ⇒ NamespaceMismatch with both tables unchanged; else that file is
+    registered under its path. -/
 theorem C17_latest (fs : FS) (fuel : Nat) (s : Repo) (ns : Str) (lazy b : Bool) (path : List Str)
     (hst : getRegisteredStatus s ns none lazy = .absent b) :
     (findLatest fs ns path = none ↔ allMatches fs ns path = []) ∧
@@ -183,11 +184,11 @@ theorem C17_latest (fs : FS) (fuel : Nat) (s : Repo) (ns : Str) (lazy b : Bool) 
       requireInternal fs (fuel + 1) s ns none lazy path = (s, .error .notFound)) ∧
     (∀ c, findLatest fs ns path = some c →
       Elected fs ns path c ∧ FileAt fs c.path c.hdr ∧
-      (c.hdr.ns ≠ ns →
+      ((c.hdr.ns ≠ ns ∨ c.hdr.ver ≠ c.version) →
         (requireInternal fs (fuel + 1) s ns none lazy path).2 = .error .mismatch ∧
         (requireInternal fs (fuel + 1) s ns none lazy path).1.typelibs = s.typelibs ∧
         (requireInternal fs (fuel + 1) s ns none lazy path).1.lazy = s.lazy) ∧
-      (c.hdr.ns = ns →
+      ((c.hdr.ns = ns ∧ c.hdr.ver = c.version) →
         requireInternal fs (fuel + 1) s ns none lazy path =
           registerInternalWith (fun s' dn dv => requireInternal fs fuel s' dn (some dv) false s'.searchPath)
             { s with nextId := s.nextId + 1 } c.path lazy ⟨s.nextId, c.hdr⟩)) := by
@@ -199,9 +200,13 @@ theorem C17_latest (fs : FS) (fuel : Nat) (s : Repo) (ns : Str) (lazy b : Bool) 
     have hel := findLatest_elected fs ns path c hc
     refine ⟨hel, matches_fileAt fs ns path 0 c hel.1, ?_, ?_⟩
     · intro hne
-      simp [requireInternal, hst, findFile, hc, hne]
-    · intro heq
-      simp [requireInternal, hst, findFile, hc, heq]
+      simp only [requireInternal, hst, findFile, hc, Option.map_some]
+      by_cases h1 : c.hdr.ns = ns
+      · have h2 : c.hdr.ver ≠ c.version := hne.resolve_left (fun h => h h1)
+        simp [h1, h2]
+      · simp [h1]
+    · rintro ⟨h1, h2⟩
+      simp [requireInternal, hst, findFile, hc, h1, h2]
 
 /-- Which files count: for a file named `ns-v.typelib` whose version part has no '-', exactly
     when `parse_version` accepts `v` (and then the version string recorded is `v`). -/
@@ -237,7 +242,9 @@ theorem C17_candidate_names (ns v : Str) (hns : ns ≠ selfName) (hv : '-' ∉ v
     (or no version asked) ⇒ the SAME typelib and the state unchanged — for eagerly loaded namespaces
     with any flags, for lazily loaded ones when the LAZY flag is given.  Not registered and the
     header differs from the file name ⇒ NamespaceMismatch and nothing registered: namespace or
-    version for an explicit version, namespace for the elected latest file. -/
+    version, for an explicit version as for the elected latest file.  Load-from-memory: registered
+    at another version ⇒ VersionConflict, at this version ⇒ the registered typelib, nothing
+    registered in either case. -/
 theorem C17_conflict_mismatch_partial (fs : FS) (fuel : Nat) (s : Repo) (ns : Str) (lazy : Bool)
     (path : List Str) :
     (∀ l v, lookupTbl s.typelibs ns = some l → l.tl.hdr.ver ≠ v →
@@ -255,11 +262,17 @@ theorem C17_conflict_mismatch_partial (fs : FS) (fuel : Nat) (s : Repo) (ns : St
       (requireInternal fs (fuel + 1) s ns (some v) lazy path).1.typelibs = s.typelibs ∧
       (requireInternal fs (fuel + 1) s ns (some v) lazy path).1.lazy = s.lazy) ∧
     (∀ b c, getRegisteredStatus s ns none lazy = .absent b → findLatest fs ns path = some c →
-      c.hdr.ns ≠ ns →
+      (c.hdr.ns ≠ ns ∨ c.hdr.ver ≠ c.version) →
       (requireInternal fs (fuel + 1) s ns none lazy path).2 = .error .mismatch ∧
       (requireInternal fs (fuel + 1) s ns none lazy path).1.typelibs = s.typelibs ∧
-      (requireInternal fs (fuel + 1) s ns none lazy path).1.lazy = s.lazy) := by
-  refine ⟨?_, ?_, ?_, ?_, ?_, ?_⟩
+      (requireInternal fs (fuel + 1) s ns none lazy path).1.lazy = s.lazy) ∧
+    (∀ (hdr : Hdr) v, getRegisteredStatus s hdr.ns (some hdr.ver) lazy = .conflict v →
+      loadTypelib fs fuel s hdr lazy = ({ s with nextId := s.nextId + 1 }, .error .versionConflict)) ∧
+    (∀ (hdr : Hdr) t, getRegisteredStatus s hdr.ns (some hdr.ver) lazy = .found t →
+      loadTypelib fs fuel s hdr lazy = ({ s with nextId := s.nextId + 1 }, .ok t)) := by
+  have hsame : ∀ hdr : Hdr, getRegisteredStatus { s with nextId := s.nextId + 1 } hdr.ns (some hdr.ver) lazy
+      = getRegisteredStatus s hdr.ns (some hdr.ver) lazy := fun _ => rfl
+  refine ⟨?_, ?_, ?_, ?_, ?_, ?_, ?_, ?_⟩
   · intro l v hl hne
     have : getRegisteredStatus s ns (some v) lazy = .conflict l.tl.hdr.ver := by
       simp [getRegisteredStatus, hl, checkVersionConflict, Ne.symm hne]
@@ -281,13 +294,21 @@ theorem C17_conflict_mismatch_partial (fs : FS) (fuel : Nat) (s : Repo) (ns : St
       | some v => simp [getRegisteredStatus, hE, hL, checkVersionConflict, (hv v rfl).symm]
     simp [requireInternal, this]
   · intro b v f hst hf hne
-    simp only [requireInternal, hst, findFile, hf]
+    simp only [requireInternal, hst, findFile, hf, Option.map_some]
     by_cases h1 : f.hdr.ns = ns
     · have h2 : f.hdr.ver ≠ v := hne.resolve_left (fun h => h h1)
       simp [h1, h2]
     · simp [h1]
   · intro b c hst hc hne
-    simp [requireInternal, hst, findFile, hc, hne]
+    simp only [requireInternal, hst, findFile, hc, Option.map_some]
+    by_cases h1 : c.hdr.ns = ns
+    · have h2 : c.hdr.ver ≠ c.version := hne.resolve_left (fun h => h h1)
+      simp [h1, h2]
+    · simp [h1]
+  · intro hdr v hc
+    simp only [loadTypelib, hsame, hc]
+  · intro hdr t hf
+    simp only [loadTypelib, hsame, hf]
 
 /-- The statement's "a file whose contents name another namespace OR VERSION than its file name is
     refused", for the elected latest file, "a version conflict is reported" for load-from-memory, and the
@@ -453,14 +474,13 @@ theorem C17_require_loaded (fs : FS) (fuel : Nat) (rank : Str → Nat) (s : Repo
     exact hp.inv.deps l hl d (by rw [hlt]; exact hd)
 
 /-- `g_irepository_load_typelib` WITHOUT the LAZY flag of a typelib with header `hdr` (which may record
-    dependencies), under the invariant and the guard of `C17_inv_partial`: afterwards the invariant holds,
+    dependencies), under the invariant: afterwards the invariant holds,
     nothing loaded eagerly is lost, and on success the namespace is loaded eagerly at version `hdr.ver`
     with every recorded dependency of the registered typelib loaded at the recorded version (from the
     global search path); when the namespace was not registered before (`absent`), what is registered
     is exactly `hdr`, under the source "<builtin>". -/
 theorem C17_load_loaded (fs : FS) (fuel : Nat) (rank : Str → Nat) (s : Repo) (hdr : Hdr)
     (hr : Ranked fs rank) (hinv : Inv fs s) (hrank : HdrRanked rank hdr)
-    (hguard : ∀ v, getRegisteredStatus s hdr.ns (some hdr.ver) false ≠ .conflict v)
     (hst : (loadTypelib fs fuel s hdr false).1.staleKey = false) :
     Inv fs (loadTypelib fs fuel s hdr false).1 ∧
     (∀ l ∈ s.typelibs, l ∈ (loadTypelib fs fuel s hdr false).1.typelibs) ∧
@@ -469,7 +489,7 @@ theorem C17_load_loaded (fs : FS) (fuel : Nat) (rank : Str → Nat) (s : Repo) (
         (∀ d ∈ l.tl.hdr.deps, DepLoaded (loadTypelib fs fuel s hdr false).1 d) ∧
         (getRegisteredStatus s hdr.ns (some hdr.ver) false = .absent false →
           l.tl.hdr = hdr ∧ l.source = builtinSource)) := by
-  have hp := load_post hr fuel s hdr false hinv hrank hguard hst
+  have hp := load_post hr fuel s hdr false hinv hrank hst
   refine ⟨hp.inv, hp.ext, ?_⟩
   intro tl htl
   have key : ∃ l ∈ (loadTypelib fs fuel s hdr false).1.typelibs, l.tl = tl ∧ l.ns = hdr.ns ∧
@@ -488,7 +508,7 @@ theorem C17_load_loaded (fs : FS) (fuel : Nat) (rank : Str → Nat) (s : Repo) (
       · exact ⟨l, hl, hlt, by unfold Loaded.ns; rw [hlt]; exact h1, by rw [hlt]; exact h2 _ rfl,
           by intro h; cases h⟩
       · cases h
-    | conflict v => exact absurd hstat (hguard v)
+    | conflict v => simp [hstat] at htl
     | absent b =>
       simp only [hstat] at htl hst ⊢
       obtain ⟨habsE, habsL⟩ := status_absent hstat
@@ -699,17 +719,13 @@ example : (run demoFS 4 (Repo.init demoPath) [.require "Foo".toList none true]).
     = ["Foo".toList] := by decide
 example : Guarded demoFS 4 (fun n => if n = "Bar".toList then 0 else 1) (Repo.init demoPath)
     [.require "Foo".toList none false, .load ⟨"Baz".toList, "1.0".toList, ["Bar-1.0".toList]⟩ false] := by
-  refine ⟨trivial, ⟨?_, ?_⟩, trivial⟩
-  · intro d hd dn dv hsd
-    simp only [List.mem_cons, List.not_mem_nil, or_false] at hd
-    subst hd
-    have e : splitDep "Bar-1.0".toList = some ("Bar".toList, "1.0".toList) := by decide
-    rw [e] at hsd; cases hsd
-    decide
-  · intro v hv
-    have e : getRegisteredStatus (step demoFS 4 (Repo.init demoPath) (Op.require "Foo".toList none false))
-        "Baz".toList (some "1.0".toList) false = .absent false := by decide
-    exact Status.noConfusion (e.symm.trans hv)
+  refine ⟨trivial, ?_, trivial⟩
+  intro d hd dn dv hsd
+  simp only [List.mem_cons, List.not_mem_nil, or_false] at hd
+  subst hd
+  have e : splitDep "Bar-1.0".toList = some ("Bar".toList, "1.0".toList) := by decide
+  rw [e] at hsd; cases hsd
+  decide
 -- C17_require_loaded / C17_load_loaded / C17_inv_partial: demoFS is acyclic (`Ranked`)
 example : Ranked demoFS (fun n => if n = "Bar".toList then 0 else 1) := by
   intro p h hfa dep hdep dn dv hsd
